@@ -28,7 +28,7 @@ ASSUMPTIONS = [
 N = {"quick": (8, 250), "thorough": (16, 1200)}
 FLOORS = {"vertical": 0.2, "trailing-equal-advances": 0.15, "composite": 0.25, "supplementary-only": 0.03, "no-unicodes": 0.03}
 
-CPS = [0x41, 0x61, 0x20, 0x1F600, 0x20000, 0xFFFF, 0x10000, 0x3042, 0xE000]
+CPS = [0x41, 0x61, 0x20, 0x1F600, 0x20000, 0xFFFF, 0x10000, 0x3042, 0xE000, 0x0]
 
 
 @st.composite
@@ -58,7 +58,12 @@ def _case(draw):
             g["height"] = draw(st.sampled_from([1000, 1000, 900, 0, 1000.5]))
             if draw(st.sampled_from([True, False, False])):
                 g["verticalOrigin"] = draw(st.sampled_from([880, 880, 800, 750.5]))
-    return {"spec": spec, "module": draw(st.sampled_from(["ufoLib2", "defcon"])), "flavour": draw(st.sampled_from(["ttf", "cff", "cff2"]))}
+    flavour = draw(st.sampled_from(["ttf", "cff", "cff2"]))
+    case = {"spec": spec, "module": draw(st.sampled_from(["ufoLib2", "defcon"])), "flavour": flavour}
+    if flavour != "ttf":
+        case["tol"] = draw(st.sampled_from([None, None, 0, 0.25]))
+        case["opt"] = draw(st.sampled_from([0, 1, 2]))
+    return case
 
 
 def point_contour(c, t=R.IDENT):
@@ -200,7 +205,11 @@ def min_long_metrics(advances):
     return max(n, 1) if advances else 0
 
 
-def expected_fields(t, spec, flavour, lenient_box=False):
+NOISY = set()
+
+
+def expected_fields(t, spec, flavour, tol=None, noise=2e-3):
+    NOISY.clear()
     """derived fields recomputed from glyph data / cmap of TTFont t (the reloaded font)"""
     order = t.getGlyphOrder()
     boxes = {}
@@ -218,8 +227,25 @@ def expected_fields(t, spec, flavour, lenient_box=False):
             # curve extrema may be fractional: ufo2ft rounds them (otRound), fontTools' save-time recalculation floors/ceils;
             # both enclose-or-round conventions are accepted, i.e. an integer within 1 of the exact extremum
             exact[n] = b is None or all(float(v).is_integer() for v in b)
-            boxes[n] = None if b is None else (R.ot_round(b[0]), R.ot_round(b[1]), R.ot_round(b[2]), R.ot_round(b[3]))
+            boxes[n] = ufo_box(b, tol)
+            # with a rounding tolerance < 0.5 coordinates are stored as 16.16 fixed-point operands: a bound that is an integer up to that
+            # encoding error may be floored or not - such glyphs get the lenient clause
+            if tol is not None and tol < 0.5 and b is not None and any(abs(v - round(v)) < noise for v in b):
+                NOISY.add(n)
     return order, boxes, exact
+
+
+def ufo_box(b, tol):
+    """the integer box ufo2ft documents for CFF glyphs: round when within the rounding tolerance, else floor the minima / ceil the maxima"""
+    if b is None:
+        return None
+    t = 0.5 if tol is None else tol
+
+    def to_int(v, f):
+        r = R.ot_round(v)
+        return r if (t >= 0.5 or abs(r - v) <= t) else int(f(v))
+
+    return (to_int(b[0], math.floor), to_int(b[1], math.floor), to_int(b[2], math.ceil), to_int(b[3], math.ceil))
 
 
 def close(a, b, tol):
@@ -259,7 +285,7 @@ def check_font(t, order, boxes, exact, spec, flavour, where, has_empty_composite
                 raise Violation("advance carried by the CFF charstring differs from hmtx", glyph=n, charstring=csw, hmtx=hmtx[n][0])
         lsb = hmtx[n][1]
         exp = stored[n][0] if stored[n] else 0
-        if abs(lsb - exp) > (0 if exact[n] else tol1):
+        if lsb != exp and not (n in NOISY and abs(lsb - exp) <= 1):
             raise Violation("left side bearing differs from the outline's xMin (%s)" % where, glyph=n, lsb=lsb, xMin=exp)
     withbox = [n for n in order if stored[n]]
     head = t["head"]
@@ -303,7 +329,7 @@ def check_font(t, order, boxes, exact, spec, flavour, where, has_empty_composite
             if g is not None and vmtx[n][0] != h:
                 raise Violation("vertical advance differs from the rounded source height (%s)" % where, glyph=n, got=vmtx[n][0], expected=h)
             tsb = origin[n] - (stored[n][3] if stored[n] else 0)
-            if g is not None and abs(vmtx[n][1] - tsb) > (0 if exact[n] else tol1):
+            if g is not None and vmtx[n][1] != tsb and not (n in NOISY and abs(vmtx[n][1] - tsb) <= 1):
                 raise Violation("top side bearing differs from verticalOrigin - yMax (%s)" % where, glyph=n, got=vmtx[n][1], expected=tsb)
         hv("vhea", vmtx, vadv, {n: vmtx[n][1] for n in order}, {n: (stored[n][3] - stored[n][1]) if stored[n] else 0 for n in order}, withbox)
         if "VORG" in t:
@@ -338,6 +364,33 @@ def check_font(t, order, boxes, exact, spec, flavour, where, has_empty_composite
         raise Violation("OS/2 first/last character index does not match the character map (%s)" % where, got=[os2.usFirstCharIndex, os2.usLastCharIndex], expected=[first, last])
 
 
+def memory_expected(t, order, boxes, tag, attr):
+    """header field recomputed from the per-glyph boxes in ufo2ft's convention (glyphs without a box are ignored)"""
+    withbox = [n for n in order if boxes[n]]
+    if tag == "head":
+        if not withbox:
+            return 0
+        i = {"xMin": 0, "yMin": 1, "xMax": 2, "yMax": 3}[attr]
+        f = min if i < 2 else max
+        return f(boxes[n][i] for n in withbox)
+    if tag == "hhea":
+        mtx = t["hmtx"]
+        lo, hi = 0, 2
+    else:
+        if "vmtx" not in t:
+            return None
+        mtx = t["vmtx"]
+        lo, hi = 1, 3
+    ext = {n: boxes[n][hi] - boxes[n][lo] for n in withbox}
+    if attr in ("minLeftSideBearing", "minTopSideBearing"):
+        return min([mtx[n][1] for n in withbox] or [0])
+    if attr in ("minRightSideBearing", "minBottomSideBearing"):
+        return min([mtx[n][0] - mtx[n][1] - ext[n] for n in withbox] or [0])
+    if attr in ("xMaxExtent", "yMaxExtent"):
+        return max([mtx[n][1] + ext[n] for n in withbox] or [0])
+    return None
+
+
 def run_case(case, ctx):
     import ufo2ft
     from fontTools.ttLib import TTFont
@@ -350,6 +403,13 @@ def run_case(case, ctx):
         raise Discard("contour that collapses to a single point")
     f = S.build(spec, S.ufo_module(case["module"]))
     kw = {"cffVersion": 2} if flavour == "cff2" else {}
+    tolr = case.get("tol")
+    if flavour != "ttf" and tolr is not None:
+        kw["roundTolerance"] = tolr
+    if flavour != "ttf" and case.get("opt") is not None:
+        kw["optimizeCFF"] = case["opt"]
+    # subroutinising reloads the font: its header fields are then fontTools' recalculation, not ufo2ft's own values
+    own_values = flavour == "ttf" or case.get("opt") in (0, 1)
     with guard("compile"):
         mem = (ufo2ft.compileTTF if flavour == "ttf" else ufo2ft.compileOTF)(f, useProductionNames=False, featureWriters=[], **kw)
     # snapshot the in-memory derived fields before saving (saving recalculates some of them in place)
@@ -388,7 +448,7 @@ def run_case(case, ctx):
     t4.save(b4)
     t5 = TTFont(io.BytesIO(b4.getvalue()))
     t3 = TTFont(io.BytesIO(data))
-    for tag in t3.reader.keys():
+    for tag in t3.reader.keys() if case.get("tol") in (None, 0.5) else []:  # fractional charstring operands do not round-trip through decompilation
         x, y = t5.reader[tag], t3.reader[tag]
         if tag == "head":
             x = x[:8] + b"\0" * 4 + x[12:]
@@ -396,7 +456,9 @@ def run_case(case, ctx):
         if x != y:
             raise Violation("table %s does not recompile to the same bytes after decompilation" % tag)
     gi = R.glyph_index(spec)
-    order, boxes, exact = expected_fields(t3, spec, flavour)
+    # subroutinising goes through cffsubr's tx, which re-encodes fractional operands with two decimals
+    # (after subroutinising, cffsubr's tx has re-encoded the relative operands with two decimals: absolute positions drift, every bound is lenient)
+    order, boxes, exact = expected_fields(t3, spec, flavour, case.get("tol"), noise=1.0 if case.get("opt") == 2 else 2e-3)
     for n in order:
         if boxes[n] is not None and boxes[n][0] == boxes[n][2] and boxes[n][1] == boxes[n][3]:
             raise Discard("compiled glyph whose outline collapses to a single point")
@@ -410,8 +472,13 @@ def run_case(case, ctx):
     for (tag, a), v in memfields.items():
         v2 = getattr(t3[tag], a)
         fractional = flavour != "ttf" and not all(exact.values())
-        if fractional and tag in ("hhea", "vhea", "head") and not a.startswith(("numberOf", "advance")) and abs(v - v2) <= 2:
-            continue
+        if fractional and tag in ("hhea", "vhea", "head") and not a.startswith(("numberOf", "advance")):
+            # the saved value is fontTools' floor/ceil recalculation; the in-memory one must follow ufo2ft's documented convention exactly
+            exp_mem = memory_expected(t3, order, boxes, tag, a)
+            if own_values and exp_mem is not None and v != exp_mem and not has_empty_composite and not NOISY:
+                raise Violation("derived field of the in-memory font does not follow the documented bounding-box rounding", field="%s.%s" % (tag, a), in_memory=v, expected=exp_mem, roundTolerance=case.get("tol"))
+            if abs(v - v2) <= 2:
+                continue
         if v != v2:
             if has_empty_composite and tag in ("hhea", "vhea", "head") and not a.startswith(("numberOf", "advance")):
                 ctx.label("empty-rendering-composite(convention clash accepted)")
@@ -426,6 +493,8 @@ def run_case(case, ctx):
     # classification
     adv = [t3["hmtx"][n][0] for n in order]
     ctx.label(flavour)
+    if case.get("tol") is not None:
+        ctx.label("roundTolerance=%s" % case["tol"])
     if "vmtx" in t3:
         ctx.label("vertical")
     if len(set(adv)) >= 2 and len(adv) >= 2 and adv[-1] == adv[-2]:
